@@ -31,7 +31,7 @@ LEVEL_TEXT = (
 LEVEL_NOTE = "Trusts the system tz database (zoneinfo / tzset) and datetime.fromtimestamp as the definition of 'naive local'."
 TECHNIQUE = "metamorphic property-based testing: generated instants x enumerated TZ/representation grid vs. decision computed from instants"
 RULE = (
-    "Hypothesis draws a base instant (a DST transition of one of the zones or arbitrary) and offsets within +-14 h "
+    "(also: the source may be a bundled PathSource, LiteralSource or ModifiedTimeSource) Hypothesis draws a base instant (a DST transition of one of the zones or arbitrary) and offsets within +-14 h "
     "(second granularity near transitions) for source, two chained stored nodes, an independent stored node and "
     "fresh_time (or none), plus 6 representation assignments (naive local, aware UTC, fixed offset, zoneinfo, or a bundled file store whose modified time is the mtime of a real file set with os.utime); every (TZ, assignment) cell is run. Non-trivial = the cell "
     "compares datetimes of different representations, or has a non-zero UTC offset, with two instants closer than the "
